@@ -858,7 +858,7 @@ class dictable(Dict):
             keys = self[by]            
         elif len(byval):
             dicts = {k : dict(zip(vals, range(len(vals)))) for k, vals in byval.items()}
-            keys = [[d.get(row[k], len(d)) for k,d in dicts.items()] for row in self]            
+            keys = [[d.get(row[k], len(byval[k])) for k,d in dicts.items()] for row in self]            
         else:
             return self.copy()
         keys2id = list(zip(keys, range(len(self))))
